@@ -124,6 +124,7 @@ fn obs_of_rv_d(m: &Machine, v: &RV, depth: u32) -> Obs {
             )
         }
         RV::Closure(_) | RV::Builtin(_) | RV::Host(_) => Obs::Proc,
+        RV::Macro(_) => Obs::Other("transformer".into()),
         RV::Unspec => Obs::Unspec,
     }
 }
